@@ -64,7 +64,12 @@ where
             }
         }
     }
-    Ok(Pubkey::find_program_address(&pda_seeds, program_id).0)
+    // `find_program_address` panics if the seeds cannot form a PDA (too many
+    // seeds, a seed longer than 32 bytes, no viable bump), so use the fallible
+    // variant: stored configs and instruction data are untrusted input
+    Pubkey::try_find_program_address(&pda_seeds, program_id)
+        .map(|(address, _)| address)
+        .ok_or_else(|| AccountResolutionError::InvalidSeedConfig.into())
 }
 
 /// Resolve a pubkey from a pubkey data configuration.
